@@ -6,7 +6,7 @@ Local Open Scope Z_scope.
 
 (* ---------------------------------------------------------------- the simulation relation *)
 Record rel (E : tvenv) (st : pystate) (env : list Z) : Prop := {
-  r_port : forall p i, is_port E p = true -> net_index (tv_nets E) p 0 = Some i ->
+  r_port : forall p i, is_readable E p = true -> net_index (tv_nets E) p 0 = Some i ->
              getv env i = ps_wires st p /\ 0 <= ps_wires st p < 2 ^ width_in (tv_ins E ++ tv_outs E) p;
   r_attr : forall x i, is_attr E x = true -> is_port E x = false -> net_index (tv_nets E) x 0 = Some i ->
              getv env i = ps_attrs st x /\ g_dom (ps_attrs st x) = true;
@@ -74,3 +74,346 @@ Proof.
     + apply guard_some in Hev as [Heb _]. eauto.
     + inversion Hev; subst. eauto.
 Qed.
+
+(* ---------------------------------------------------------------- statements *)
+Section Sound.
+Variable E : tvenv.
+Variable st : pystate.
+Variable env : list Z.
+Hypothesis R : rel E st env.
+
+Definition val_sound (pe : pyexpr) (re : rexpr) : Prop :=
+  forall W sg v, tv E false W sg pe re = true -> pyev g_dom st pe = Some v -> rsize re <= W -> (sg = true -> rsigned re = true) ->
+    reval env W sg re = v mod 2 ^ W /\ (forall n, ubits re = Some n -> 0 <= v < 2 ^ n) /\ 1 <= rsize re.
+Definition cond_sound (pe : pyexpr) (re : rexpr) : Prop :=
+  forall W sg v, tv E true W sg pe re = true -> pyev g_dom st pe = Some v -> g_dom v = true -> (rself env re =? 0) = (v =? 0).
+
+Lemma cond_of_val pe re :
+  val_sound pe re ->
+  (forall W sg, tv E true W sg pe re = true -> tv E false (rsize re) (rsigned re) pe re = true /\ fits (rsize re) re = true) ->
+  cond_sound pe re.
+Proof.
+  intros Hv Hb W sg v Ht Hev Hg. destruct (Hb W sg Ht) as [Ht' Hf].
+  destruct (Hv (rsize re) (rsigned re) v Ht' Hev (Z.le_refl _) (fun h => h)) as (Hr & Hu & Hs).
+  unfold rself. rewrite Hr. rewrite mod_small_pow; [reflexivity |]. exact (fits_exact _ _ _ Hf Hg Hu).
+Qed.
+
+Ltac bridge := let W := fresh "W" in let sg := fresh "sg" in let H := fresh "H" in let Hf := fresh "Hf" in let Harm := fresh "Harm" in
+  intros W sg H; cbn [tv negb orb] in H |- *; apply andb_prop in H as [Hf Harm]; first [discriminate Harm | split; [exact Harm | exact Hf]].
+
+(* exact value of a sub-expression that fits its context *)
+Lemma exact_val pe re W sg v :
+  val_sound pe re -> tv E false W sg pe re = true -> fits W re = true -> guard g_dom (pyev g_dom st pe) = Some v ->
+  rsize re <= W -> (sg = true -> rsigned re = true) ->
+  reval env W sg re = v /\ 0 <= v < 2147483648 /\ 0 <= v < 2 ^ W /\ (forall n, ubits re = Some n -> 0 <= v < 2 ^ n) /\ 1 <= rsize re.
+Proof.
+  intros Hv Ht Hf Hg Hs Hsg. apply guard_some in Hg as [Hev Hd].
+  destruct (Hv W sg v Ht Hev Hs Hsg) as (Hr & Hu & H1). pose proof (fits_exact _ _ _ Hf Hd Hu) as Hx.
+  rewrite Hr, mod_small_pow by exact Hx. apply g_dom_spec in Hd. auto.
+Qed.
+
+(* ---------------------------------------------------------------- leaves *)
+Lemma const_sound n re : val_sound (PConst n) re /\ cond_sound (PConst n) re.
+Proof.
+  assert (Hv : val_sound (PConst n) re).
+  { intros W sg v Ht Hev Hs Hsg. destruct re; cbn [tv negb orb andb] in Ht; try discriminate.
+    apply andb_prop in Ht as [Heq H31]. apply Z.eqb_eq in Heq. subst n0. apply in31_spec in H31.
+    cbn [pyev] in Hev. inversion Hev; subst v. cbn [rsize] in Hs. cbn [reval]. split; [| split].
+    - unfold vtrunc at 1. change (2 ^ 32) with 4294967296. rewrite Z.mod_small by lia. apply extend_int; lia.
+    - cbn [ubits]. intros k Hk. destruct (Z.leb_spec 0 n); [| discriminate]. inversion Hk. apply log2_bound. lia.
+    - cbn [rsize]. lia. }
+  split; [exact Hv |]. apply cond_of_val; [exact Hv |]. destruct re; bridge.
+Qed.
+
+Ltac split_and H := repeat match type of H with (_ && _ = true) => let H2 := fresh H in apply andb_prop in H as [H H2] end.
+
+Lemma get_sound p re : val_sound (PGet p) re /\ cond_sound (PGet p) re.
+Proof.
+  assert (Hv : val_sound (PGet p) re).
+  { intros W sg v Ht Hev Hs Hsg. destruct re; cbn [tv negb orb andb] in Ht; try discriminate.
+    apply andb_prop in Ht as [Ht Hw]. apply andb_prop in Ht as [Ht Hns]. apply andb_prop in Ht as [Hp Hn].
+    apply net_is_spec in Hn as [Hi Hpos]. apply Z.eqb_eq in Hw. destruct (r_port _ _ _ R p i Hp Hi) as [Hg Hr]. rewrite Hw in Hr.
+    cbn [pyev] in Hev. inversion Hev; subst v. cbn [rsize] in Hs. cbn [rsigned] in Hsg.
+    assert (sg = false) as -> by (destruct sg; [specialize (Hsg eq_refl); subst sg0; discriminate | reflexivity]).
+    cbn [reval]. unfold extend, vtrunc. rewrite Hg. split; [reflexivity | split].
+    - cbn [ubits]. intros k Hk. inversion Hk; subst k. exact Hr.
+    - cbn [rsize]. lia. }
+  split; [exact Hv |]. apply cond_of_val; [exact Hv |]. destruct re; bridge.
+Qed.
+
+Lemma int_leaf W sg i v : 0 <= v < 2147483648 -> getv env i = v -> 32 <= W ->
+  reval env W sg (RId i 32 true) = v mod 2 ^ W /\ (forall n, ubits (RId i 32 true) = Some n -> 0 <= v < 2 ^ n) /\ 1 <= rsize (RId i 32 true).
+Proof.
+  intros Hv Hg HW. cbn [reval rsize ubits]. rewrite Hg. split; [apply extend_int; assumption | split; [| lia]].
+  intros n Hn. inversion Hn. change (2 ^ 32) with 4294967296. lia.
+Qed.
+
+Lemma attr_sound x re : val_sound (PAttr x) re /\ cond_sound (PAttr x) re.
+Proof.
+  assert (Hv : val_sound (PAttr x) re).
+  { intros W sg v Ht Hev Hs Hsg. cbn [pyev] in Hev. inversion Hev; subst v. destruct re; cbn [tv negb orb andb] in Ht; try discriminate.
+    - (* a constant attribute, emitted as its literal value *)
+      destruct (assoc (tv_consts E) x) as [c |] eqn:Hc; [| discriminate]. apply andb_prop in Ht as [Heq H31]. apply Z.eqb_eq in Heq. subst c.
+      apply in31_spec in H31. rewrite (r_const _ _ _ R x n Hc). cbn [rsize] in Hs. cbn [reval]. split; [| split].
+      + unfold vtrunc at 1. change (2 ^ 32) with 4294967296. rewrite Z.mod_small by lia. apply extend_int; lia.
+      + cbn [ubits]. intros k Hk. destruct (Z.leb_spec 0 n); [| discriminate]. inversion Hk. apply log2_bound. lia.
+      + cbn [rsize]. lia.
+    - apply andb_prop in Ht as [Ht Hw]. apply andb_prop in Ht as [Ht Hsgn]. apply andb_prop in Ht as [Ht Hn]. apply andb_prop in Ht as [Ha Hnp].
+      apply net_is_spec in Hn as [Hi _]. apply Z.eqb_eq in Hw. subst w. destruct sg0; [| discriminate].
+      apply negb_true_iff in Hnp. destruct (r_attr _ _ _ R x i Ha Hnp Hi) as [Hg Hd]. apply g_dom_spec in Hd.
+      cbn [rsize] in Hs. apply int_leaf; assumption. }
+  split; [exact Hv |]. apply cond_of_val; [exact Hv |]. destruct re; bridge.
+Qed.
+
+Lemma local_sound x re : val_sound (PLocal x) re /\ cond_sound (PLocal x) re.
+Proof.
+  assert (Hv : val_sound (PLocal x) re).
+  { intros W sg v Ht Hev Hs Hsg. cbn [pyev] in Hev. destruct re; cbn [tv negb orb andb] in Ht; try discriminate.
+    apply andb_prop in Ht as [Ht Hw]. apply andb_prop in Ht as [Ht Hsgn]. apply andb_prop in Ht as [Hl Hn].
+    apply net_is_spec in Hn as [Hi _]. apply Z.eqb_eq in Hw. subst w. destruct sg0; [| discriminate].
+    destruct (r_local _ _ _ R x i v Hl Hi Hev) as [Hg Hd]. apply g_dom_spec in Hd.
+    cbn [rsize] in Hs. apply int_leaf; assumption. }
+  split; [exact Hv |]. apply cond_of_val; [exact Hv |]. destruct re; bridge.
+Qed.
+
+Lemma unsup_sound w re : val_sound (PUnsupported w) re /\ cond_sound (PUnsupported w) re.
+Proof. split; intros W sg v Ht Hev; cbn [pyev] in Hev; discriminate. Qed.
+
+(* ---------------------------------------------------------------- unary operators *)
+Lemma un_sound o a re : (forall ra, val_sound a ra /\ cond_sound a ra) -> val_sound (PUn o a) re /\ cond_sound (PUn o a) re.
+Proof.
+  intros IH.
+  assert (Hv : val_sound (PUn o a) re).
+  { intros W sg v Ht Hev Hs Hsg. destruct re as [| | | | | u ra | | | | |]; try (destruct o; cbn [tv negb orb andb] in Ht; discriminate).
+    destruct (IH ra) as [IHv IHc].
+    destruct o, u; cbn [tv negb orb andb] in Ht; try discriminate; cbn [pyev] in Hev.
+    - apply obind_some in Hev as (va & Hea & Hv'). inversion Hv'; subst v. cbn [rsize] in Hs. cbn [rsigned] in Hsg.
+      destruct (IHv W sg va Ht Hea Hs Hsg) as (Hr & _ & H1). cbn [reval rsize ubits]. rewrite Hr. unfold vtrunc.
+      split; [apply lnot_mod2; lia | split; [intros n Hn; discriminate | exact H1]].
+    - apply obind_some in Hev as (va & Hga & Hv'). inversion Hv'; subst v. apply guard_some in Hga as [Hea Hd].
+      pose proof (IHc 0 false va Ht Hea Hd) as Hc. unfold rself in Hc. cbn [reval rsize ubits]. rewrite Hc. unfold vtrunc.
+      cbn [rsize] in Hs. split; [reflexivity | split; [intros n Hn; inversion Hn; apply b2z_01 | lia]].
+    - apply obind_some in Hev as (va & Hea & Hv'). inversion Hv'; subst v. cbn [rsize] in Hs. cbn [rsigned] in Hsg.
+      destruct (IHv W sg va Ht Hea Hs Hsg) as (Hr & _ & H1). cbn [reval rsize ubits]. rewrite Hr. unfold vtrunc.
+      split; [apply opp_mod2; lia | split; [intros n Hn; discriminate | exact H1]]. }
+  split; [exact Hv |]. apply cond_of_val; [exact Hv |].
+  destruct o; destruct re as [| | | | | u ra | | | | |]; try bridge; destruct u; bridge.
+Qed.
+
+(* ---------------------------------------------------------------- binary operators *)
+Lemma add_bound a b na nb : 0 <= a < 2 ^ na -> 0 <= b < 2 ^ nb -> 0 <= a + b < 2 ^ (Z.max na nb + 1).
+Proof.
+  intros Ha Hb. pose proof (bound_mono a na (Z.max na nb) Ha ltac:(lia)). pose proof (bound_mono b nb (Z.max na nb) Hb ltac:(lia)).
+  assert (0 <= Z.max na nb). { destruct (Z.lt_ge_cases (Z.max na nb) 0) as [Hn | Hp]; [| exact Hp]. rewrite Z.pow_neg_r in H by exact Hn. lia. }
+  rewrite Z.pow_add_r by lia. change (2 ^ 1) with 2. lia.
+Qed.
+
+Lemma max_nonneg_of_bound v n : 0 <= v < 2 ^ n -> 0 <= n.
+Proof. intros H. destruct (Z.lt_ge_cases n 0) as [Hn | Hp]; [| exact Hp]. rewrite Z.pow_neg_r in H by exact Hn. lia. Qed.
+
+Lemma hom_ubits o o' ra rb va vb :
+  hom_op o = true -> hom_match o o' = true ->
+  (forall n, ubits ra = Some n -> 0 <= va < 2 ^ n) -> (forall n, ubits rb = Some n -> 0 <= vb < 2 ^ n) ->
+  forall n, ubits (RBin o' ra rb) = Some n -> 0 <= hom_fun o va vb < 2 ^ n.
+Proof.
+  intros Ho Hm Ha Hb n Hn. destruct o, o'; try discriminate; cbn [ubits] in Hn; try discriminate; cbn [hom_fun];
+    destruct (ubits ra) as [na |]; try discriminate; destruct (ubits rb) as [nb |]; try discriminate; cbn [omax option_map] in Hn; inversion Hn; subst n;
+    specialize (Ha na eq_refl); specialize (Hb nb eq_refl).
+  - apply add_bound; assumption.
+  - pose proof (max_nonneg_of_bound _ _ Ha). apply land_bound; [lia | apply (bound_mono va na); [assumption | lia] | apply (bound_mono vb nb); [assumption | lia]].
+  - pose proof (max_nonneg_of_bound _ _ Ha). apply lor_bound; [lia | apply (bound_mono va na); [assumption | lia] | apply (bound_mono vb nb); [assumption | lia]].
+  - pose proof (max_nonneg_of_bound _ _ Ha). apply lxor_bound; [lia | apply (bound_mono va na); [assumption | lia] | apply (bound_mono vb nb); [assumption | lia]].
+Qed.
+
+Lemma hom_mod o o' x y W : hom_op o = true -> hom_match o o' = true -> 0 <= W ->
+  bop o' (x mod 2 ^ W) (y mod 2 ^ W) mod 2 ^ W = hom_fun o x y mod 2 ^ W.
+Proof.
+  intros Ho Hm HW. destruct o, o'; try discriminate; cbn [bop hom_fun].
+  - apply add_mod2; exact HW. - apply sub_mod2; exact HW. - apply mul_mod2; exact HW.
+  - apply land_mod2; exact HW. - apply lor_mod2; exact HW. - apply lxor_mod2; exact HW.
+Qed.
+
+Lemma hom_reval o o' W sg ra rb : hom_op o = true -> hom_match o o' = true ->
+  reval env W sg (RBin o' ra rb) = vtrunc W (bop o' (reval env W sg ra) (reval env W sg rb)) /\
+  rsize (RBin o' ra rb) = Z.max (rsize ra) (rsize rb) /\ rsigned (RBin o' ra rb) = rsigned ra && rsigned rb.
+Proof. intros Ho Hm. destruct o, o'; try discriminate; auto. Qed.
+
+Lemma bin_sound o a b re :
+  (forall ra, val_sound a ra /\ cond_sound a ra) -> (forall rb, val_sound b rb /\ cond_sound b rb) ->
+  val_sound (PBin o a b) re /\ cond_sound (PBin o a b) re.
+Proof.
+  intros IHa IHb.
+  assert (Hv : val_sound (PBin o a b) re).
+  { intros W sg v Ht Hev Hs Hsg. destruct re as [| | | | | | o' ra rb | | | |]; try (cbn [tv negb orb andb] in Ht; discriminate).
+    destruct (IHa ra) as [IHva _]. destruct (IHb rb) as [IHvb _].
+    cbn [tv negb orb andb] in Ht. cbn [pyev] in Hev. destruct (hom_op o) eqn:Hhom.
+    - (* + - * & | ^ *)
+      apply andb_prop in Ht as [Ht Htb]. apply andb_prop in Ht as [Hm Hta].
+      apply obind_some in Hev as (va & Hea & Hev). apply obind_some in Hev as (vb & Heb & Hv'). inversion Hv'; subst v.
+      destruct (hom_reval o o' W sg ra rb Hhom Hm) as (Hr & Hsz & Hsn). rewrite Hsz in Hs. rewrite Hsn in Hsg.
+      destruct (IHva W sg va Hta Hea ltac:(lia)) as (Hra & Hua & H1a). { intros h. apply Hsg in h. apply andb_prop in h. tauto. }
+      destruct (IHvb W sg vb Htb Heb ltac:(lia)) as (Hrb & Hub & H1b). { intros h. apply Hsg in h. apply andb_prop in h. tauto. }
+      rewrite Hr, Hra, Hrb, Hsz. unfold vtrunc. split; [apply hom_mod; [assumption | assumption | lia] | split; [| lia]].
+      apply hom_ubits; assumption.
+    - destruct o; try discriminate; destruct o'; try discriminate.
+      + (* // *)
+        apply andb_prop in Ht as [Ht Hsw]. apply andb_prop in Ht as [Ht Hfb]. apply andb_prop in Ht as [Ht Htb]. apply andb_prop in Ht as [Hta Hfa].
+        apply obind_some in Hev as (va & Hga & Hev). apply obind_some in Hev as (vb & Hgb & Hv').
+        destruct (vb =? 0) eqn:Hz; [discriminate |]. inversion Hv'; subst v. apply Z.eqb_neq in Hz.
+        cbn [rsize arith_op] in Hs. cbn [rsigned arith_op] in Hsg.
+        destruct (exact_val a ra W sg va IHva Hta Hfa Hga ltac:(lia)) as (Hra & Hda & Hxa & Hua & H1a). { intros h. apply Hsg in h. apply andb_prop in h. tauto. }
+        destruct (exact_val b rb W sg vb IHvb Htb Hfb Hgb ltac:(lia)) as (Hrb & Hdb & Hxb & Hub & H1b). { intros h. apply Hsg in h. apply andb_prop in h. tauto. }
+        cbn [reval arith_op rsize ubits]. rewrite Hra, Hrb. pose proof (div_le va vb ltac:(lia) ltac:(lia)) as Hq.
+        split; [| split; [| lia]].
+        * destruct sg.
+          -- apply orb_prop in Hsw as [Hsw | Hsw]; [discriminate |]. rewrite !to_signed_small by lia. rewrite quot_div by lia. reflexivity.
+          -- rewrite quot_div by lia. reflexivity.
+        * intros n Hn. specialize (Hua n Hn). lia.
+      + (* % *)
+        apply andb_prop in Ht as [Ht Hsw]. apply andb_prop in Ht as [Ht Hfb]. apply andb_prop in Ht as [Ht Htb]. apply andb_prop in Ht as [Hta Hfa].
+        apply obind_some in Hev as (va & Hga & Hev). apply obind_some in Hev as (vb & Hgb & Hv').
+        destruct (vb =? 0) eqn:Hz; [discriminate |]. inversion Hv'; subst v. apply Z.eqb_neq in Hz.
+        cbn [rsize arith_op] in Hs. cbn [rsigned arith_op] in Hsg.
+        destruct (exact_val a ra W sg va IHva Hta Hfa Hga ltac:(lia)) as (Hra & Hda & Hxa & Hua & H1a). { intros h. apply Hsg in h. apply andb_prop in h. tauto. }
+        destruct (exact_val b rb W sg vb IHvb Htb Hfb Hgb ltac:(lia)) as (Hrb & Hdb & Hxb & Hub & H1b). { intros h. apply Hsg in h. apply andb_prop in h. tauto. }
+        cbn [reval arith_op rsize ubits]. rewrite Hra, Hrb. pose proof (Z.mod_pos_bound va vb ltac:(lia)) as Hq.
+        split; [| split; [| lia]].
+        * destruct sg.
+          -- apply orb_prop in Hsw as [Hsw | Hsw]; [discriminate |]. rewrite !to_signed_small by lia. rewrite rem_mod by lia. reflexivity.
+          -- rewrite rem_mod by lia. reflexivity.
+        * intros n Hn. specialize (Hub n Hn). lia.
+      + (* << *)
+        apply andb_prop in Ht as [Ht Hfb]. apply andb_prop in Ht as [Hta Htb].
+        apply obind_some in Hev as (va & Hea & Hev). apply obind_some in Hev as (vb & Hgb & Hv').
+        destruct (vb <? 0) eqn:Hz; [discriminate |]. inversion Hv'; subst v. apply Z.ltb_ge in Hz.
+        cbn [rsize arith_op shift_op] in Hs. cbn [rsigned arith_op shift_op] in Hsg.
+        destruct (IHva W sg va Hta Hea Hs Hsg) as (Hra & Hua & H1a).
+        destruct (exact_val b rb (rsize rb) (rsigned rb) vb IHvb Htb Hfb Hgb (Z.le_refl _) (fun h => h)) as (Hrb & Hdb & Hxb & Hub & H1b).
+        cbn [reval arith_op shift_op rsize ubits]. rewrite Hra, Hrb. unfold vtrunc, py_shl.
+        split; [apply shiftl_mod2; lia | split; [intros n Hn; discriminate | exact H1a]].
+      + (* >> *)
+        apply andb_prop in Ht as [Ht Hfb]. apply andb_prop in Ht as [Ht Htb]. apply andb_prop in Ht as [Hta Hfa].
+        apply obind_some in Hev as (va & Hga & Hev). apply obind_some in Hev as (vb & Hgb & Hv').
+        destruct (vb <? 0) eqn:Hz; [discriminate |]. inversion Hv'; subst v. apply Z.ltb_ge in Hz.
+        cbn [rsize arith_op shift_op] in Hs. cbn [rsigned arith_op shift_op] in Hsg.
+        destruct (exact_val a ra W sg va IHva Hta Hfa Hga Hs Hsg) as (Hra & Hda & Hxa & Hua & H1a).
+        destruct (exact_val b rb (rsize rb) (rsigned rb) vb IHvb Htb Hfb Hgb (Z.le_refl _) (fun h => h)) as (Hrb & Hdb & Hxb & Hub & H1b).
+        cbn [reval arith_op shift_op rsize ubits]. rewrite Hra, Hrb. unfold vtrunc, py_shr.
+        split; [reflexivity | split; [| exact H1a]].
+        intros n Hn. specialize (Hua n Hn). pose proof (shiftr_le va vb ltac:(lia) Hz). lia. }
+  split; [exact Hv |]. apply cond_of_val; [exact Hv |]. destruct re; bridge.
+Qed.
+
+(* ---------------------------------------------------------------- comparisons *)
+Lemma cmp_reval o o' W sg ra rb x y :
+  cmp_match o o' = true -> 1 <= W ->
+  forall cw csg, cw = Z.max (rsize ra) (rsize rb) -> csg = rsigned ra && rsigned rb ->
+  reval env cw csg ra = x -> reval env cw csg rb = y -> (if csg then to_signed cw x else x) = x -> (if csg then to_signed cw y else y) = y ->
+  reval env W sg (RBin o' ra rb) = b2z (cmp_fun o x y) mod 2 ^ W /\ rsize (RBin o' ra rb) = 1 /\ ubits (RBin o' ra rb) = Some 1.
+Proof.
+  intros Hm HW cw csg Hcw Hcsg Hx Hy Hsx Hsy. destruct o, o'; try discriminate; cbn [reval arith_op shift_op rsize ubits cmp_fun];
+    rewrite <- Hcw, <- Hcsg, Hx, Hy, Hsx, Hsy; unfold vtrunc; auto.
+Qed.
+
+Lemma cmp_sound o a b re :
+  (forall ra, val_sound a ra /\ cond_sound a ra) -> (forall rb, val_sound b rb /\ cond_sound b rb) ->
+  val_sound (PCmp o a b) re /\ cond_sound (PCmp o a b) re.
+Proof.
+  intros IHa IHb.
+  assert (Hv : val_sound (PCmp o a b) re).
+  { intros W sg v Ht Hev Hs Hsg. destruct re as [| | | | | | o' ra rb | | | |]; try (cbn [tv negb orb andb] in Ht; discriminate).
+    destruct (IHa ra) as [IHva _]. destruct (IHb rb) as [IHvb _].
+    cbn [tv negb orb andb] in Ht. cbn zeta in Ht. cbn [pyev] in Hev.
+    apply andb_prop in Ht as [Ht Hsw]. apply andb_prop in Ht as [Ht Hfb]. apply andb_prop in Ht as [Ht Htb]. apply andb_prop in Ht as [Ht Hfa].
+    apply andb_prop in Ht as [Hm Hta].
+    apply obind_some in Hev as (va & Hga & Hev). apply obind_some in Hev as (vb & Hgb & Hv'). inversion Hv'; subst v.
+    remember (Z.max (rsize ra) (rsize rb)) as cw eqn:Hcw. remember (rsigned ra && rsigned rb) as csg eqn:Hcsg.
+    destruct (exact_val a ra cw csg va IHva Hta Hfa Hga ltac:(lia)) as (Hra & Hda & Hxa & Hua & H1a). { intros h. rewrite h in Hcsg. symmetry in Hcsg. apply andb_prop in Hcsg. tauto. }
+    destruct (exact_val b rb cw csg vb IHvb Htb Hfb Hgb ltac:(lia)) as (Hrb & Hdb & Hxb & Hub & H1b). { intros h. rewrite h in Hcsg. symmetry in Hcsg. apply andb_prop in Hcsg. tauto. }
+    assert (Hsz : rsize (RBin o' ra rb) = 1) by (destruct o, o'; try discriminate; reflexivity).
+    rewrite Hsz in Hs.
+    destruct (cmp_reval o o' W sg ra rb va vb Hm Hs cw csg Hcw Hcsg Hra Hrb) as (Hr & _ & Hu).
+    { destruct csg; [| reflexivity]. apply orb_prop in Hsw as [Hsw | Hsw]; [discriminate |]. apply to_signed_small; lia. }
+    { destruct csg; [| reflexivity]. apply orb_prop in Hsw as [Hsw | Hsw]; [discriminate |]. apply to_signed_small; lia. }
+    rewrite Hr, Hu, Hsz. split; [reflexivity | split; [| lia]]. intros n Hn. inversion Hn. apply b2z_01. }
+  split; [exact Hv |]. apply cond_of_val; [exact Hv |]. destruct re; bridge.
+Qed.
+
+(* ---------------------------------------------------------------- and / or *)
+Lemma bool_reval o o' W sg ra rb :
+  bool_match o o' = true ->
+  reval env W sg (RBin o' ra rb) =
+    vtrunc W (b2z (match o with PAnd => negb (rself env ra =? 0) && negb (rself env rb =? 0) | POr => negb (rself env ra =? 0) || negb (rself env rb =? 0) end))
+  /\ rsize (RBin o' ra rb) = 1 /\ rsigned (RBin o' ra rb) = false /\ ubits (RBin o' ra rb) = Some 1.
+Proof. intros Hm. destruct o, o'; try discriminate; auto. Qed.
+
+Lemma bool_sound o a b re :
+  (forall ra, val_sound a ra /\ cond_sound a ra) -> (forall rb, val_sound b rb /\ cond_sound b rb) ->
+  val_sound (PBool o a b) re /\ cond_sound (PBool o a b) re.
+Proof.
+  intros IHa IHb. split.
+  - intros W sg v Ht Hev Hs Hsg. destruct re as [| | | | | | o' ra rb | | | |]; try (cbn [tv negb orb andb] in Ht; discriminate).
+    destruct (IHa ra) as [_ IHca]. destruct (IHb rb) as [_ IHcb].
+    cbn [tv negb orb andb] in Ht. apply andb_prop in Ht as [Ht Htb]. apply andb_prop in Ht as [Ht Hta]. apply andb_prop in Ht as [Hm Hbe].
+    apply andb_prop in Hbe as [Hba Hbb].
+    destruct (bool_reval o o' W sg ra rb Hm) as (Hr & Hsz & _ & Hu). rewrite Hsz in Hs. rewrite Hr, Hu, Hsz. unfold vtrunc.
+    assert (Hgoal : b2z (match o with PAnd => negb (rself env ra =? 0) && negb (rself env rb =? 0)
+                                  | POr => negb (rself env ra =? 0) || negb (rself env rb =? 0) end) = v /\ (v = 0 \/ v = 1)).
+    { destruct o; cbn [pyev] in Hev; apply obind_some in Hev as (va & Hga & Hev); apply guard_some in Hga as [Hea Hda];
+        pose proof (IHca 0 false va Hta Hea Hda) as Hca; pose proof (boolexp_01 _ _ _ _ Hba Hea) as H01a; rewrite Hca.
+      - destruct (va =? 0) eqn:Hz.
+        + inversion Hev; subst v. apply Z.eqb_eq in Hz. subst va. simpl. auto.
+        + apply guard_some in Hev as [Heb Hdb]. pose proof (IHcb 0 false v Htb Heb Hdb) as Hcb. pose proof (boolexp_01 _ _ _ _ Hbb Heb) as H01b.
+          rewrite Hcb. destruct H01b as [-> | ->]; simpl; auto.
+      - destruct (va =? 0) eqn:Hz.
+        + apply guard_some in Hev as [Heb Hdb]. pose proof (IHcb 0 false v Htb Heb Hdb) as Hcb. pose proof (boolexp_01 _ _ _ _ Hbb Heb) as H01b.
+          rewrite Hcb. destruct H01b as [-> | ->]; simpl; auto.
+        + inversion Hev; subst v. destruct H01a as [-> | ->]; [discriminate |]. simpl. auto. }
+    destruct Hgoal as [Hg H01]. rewrite Hg. split; [reflexivity | split; [| lia]].
+    intros n Hn. inversion Hn. change (2 ^ 1) with 2. lia.
+  - intros W sg v Ht Hev Hd. destruct re as [| | | | | | o' ra rb | | | |]; try (cbn [tv negb orb andb] in Ht; rewrite ?andb_false_r in Ht; discriminate).
+    destruct (IHa ra) as [_ IHca]. destruct (IHb rb) as [_ IHcb].
+    cbn [tv negb orb andb] in Ht. apply andb_prop in Ht as [_ Ht]. apply andb_prop in Ht as [Ht Htb]. apply andb_prop in Ht as [Ht Hta]. apply andb_prop in Ht as [Hm _].
+    destruct (bool_reval o o' 1 false ra rb Hm) as (Hr & Hsz & Hsn & _). unfold rself at 1. rewrite Hsz, Hsn, Hr. unfold vtrunc. rewrite b2z_mod by lia.
+    destruct o; cbn [pyev] in Hev; apply obind_some in Hev as (va & Hga & Hev); apply guard_some in Hga as [Hea Hda];
+      pose proof (IHca 0 false va Hta Hea Hda) as Hca; rewrite Hca.
+    + destruct (va =? 0) eqn:Hz.
+      * inversion Hev; subst v. rewrite Hz. reflexivity.
+      * apply guard_some in Hev as [Heb Hdb]. rewrite (IHcb 0 false v Htb Heb Hdb). destruct (v =? 0); reflexivity.
+    + destruct (va =? 0) eqn:Hz.
+      * apply guard_some in Hev as [Heb Hdb]. rewrite (IHcb 0 false v Htb Heb Hdb). destruct (v =? 0); reflexivity.
+      * inversion Hev; subst v. rewrite Hz. reflexivity.
+Qed.
+
+(* ---------------------------------------------------------------- ternary *)
+Lemma ifexp_sound c a b re :
+  (forall rc, val_sound c rc /\ cond_sound c rc) -> (forall ra, val_sound a ra /\ cond_sound a ra) -> (forall rb, val_sound b rb /\ cond_sound b rb) ->
+  val_sound (PIfExp c a b) re /\ cond_sound (PIfExp c a b) re.
+Proof.
+  intros IHc IHa IHb.
+  assert (Hv : val_sound (PIfExp c a b) re).
+  { intros W sg v Ht Hev Hs Hsg. destruct re as [| | | | | | | rc ra rb | | |]; try (cbn [tv negb orb andb] in Ht; discriminate).
+    destruct (IHc rc) as [_ IHcc]. destruct (IHa ra) as [IHva _]. destruct (IHb rb) as [IHvb _].
+    cbn [tv negb orb andb] in Ht. apply andb_prop in Ht as [Ht Htb]. apply andb_prop in Ht as [Htc Hta].
+    cbn [pyev] in Hev. apply obind_some in Hev as (vc & Hgc & Hev). apply guard_some in Hgc as [Hec Hdc].
+    pose proof (IHcc 0 false vc Htc Hec Hdc) as Hcc. unfold rself in Hcc.
+    cbn [rsize] in Hs. cbn [rsigned] in Hsg. cbn [reval rsize ubits]. rewrite Hcc.
+    destruct (vc =? 0).
+    - destruct (IHvb W sg v Htb Hev ltac:(lia)) as (Hr & Hu & H1). { intros h. apply Hsg in h. apply andb_prop in h. tauto. }
+      split; [exact Hr | split; [| lia]]. intros n Hn. destruct (ubits ra) as [na |]; [| discriminate]. destruct (ubits rb) as [nb |]; [| discriminate].
+      cbn [omax] in Hn. inversion Hn. apply (bound_mono v nb); [apply Hu; reflexivity | lia].
+    - destruct (IHva W sg v Hta Hev ltac:(lia)) as (Hr & Hu & H1). { intros h. apply Hsg in h. apply andb_prop in h. tauto. }
+      split; [exact Hr | split; [| lia]]. intros n Hn. destruct (ubits ra) as [na |]; [| discriminate]. destruct (ubits rb) as [nb |]; [| discriminate].
+      cbn [omax] in Hn. inversion Hn. apply (bound_mono v na); [apply Hu; reflexivity | lia]. }
+  split; [exact Hv |]. apply cond_of_val; [exact Hv |]. destruct re; bridge.
+Qed.
+
+(* ---------------------------------------------------------------- all expressions *)
+Theorem tv_sound pe : forall re, val_sound pe re /\ cond_sound pe re.
+Proof.
+  induction pe as [n | p | x | x | o a IHa b IHb | o a IHa | o a IHa b IHb | o a IHa b IHb | c IHc a IHa b IHb | w]; intros re.
+  - apply const_sound. - apply get_sound. - apply attr_sound. - apply local_sound.
+  - apply bin_sound; assumption. - apply un_sound; assumption. - apply cmp_sound; assumption.
+  - apply bool_sound; assumption. - apply ifexp_sound; assumption. - apply unsup_sound.
+Qed.
+End Sound.
